@@ -106,6 +106,7 @@ class Model:
         np, DataSet = self.np, self.DataSet
         kind = op[0]
         vs: List[dict] = []
+        retained = None
 
         def viol(key, what, detail=""):
             vs.append({"key": key, "what": what, "detail": detail})
@@ -163,6 +164,7 @@ class Model:
                     for t, v in zip(ref.pts, vals):
                         t[1] = t[1] - v
             elif kind in ("json", "from_dict_twice"):
+                retained_ref = copy.deepcopy(ref)
                 d = impl.to_dict()
                 d = json.loads(json.dumps(d))
                 for k in op[1]:
@@ -194,23 +196,49 @@ class Model:
                     ref.label = "file" if "path" not in op[1] else ""
                 if "path" in op[1]:
                     ref.path = ""
+                retained = (impl, retained_ref, kind)
                 impl = impl2
             elif kind == "duplicate":
                 old = impl.uuid
+                retained = (impl, copy.deepcopy(ref), "duplicate")
                 impl = DataSet.duplicate(impl)
                 if impl.uuid == old:
                     viol("duplicate|same-uuid", "duplicate kept the uuid")
             elif kind == "average":
-                impl = DataSet.average([impl, DataSet.duplicate(impl)], label="lbl")
-                for t in ref.pts:
+                # the average of this data set and a shifted copy of it; both operands are looked at again afterwards
+                other = DataSet.duplicate(impl)
+                shift = complex(0.5, 0.25)
+                other.subtract_impedances(np.array([shift]))
+                ref_other = copy.deepcopy(ref)
+                for t in ref_other.pts:
+                    t[1] = t[1] - shift
+                retained = (impl, copy.deepcopy(ref), "average")
+                impl = DataSet.average([impl, other], label="lbl")
+                for t, o in zip(ref.pts, ref_other.pts):
+                    t[1] = (t[1] + o[1]) / 2
                     t[2] = False
                 ref.path = ""
+                for x in self.check_state(other, ref_other, "average(second operand)"):
+                    x["key"] = "alias|operand-changed|" + x["key"]
+                    vs.append(x)
             else:
                 raise ValueError(f"unknown op {op}")
         except Exception as e:
             viol(f"op-raises|{kind}|{type(e).__name__}|{exc_signature(e)}", f"{kind} raised {type(e).__name__}: {str(e)[:80]}")
             return impl, ref, vs
         vs.extend(self.check_state(impl, ref, kind + (":" + str(op[1]) if kind == "construct" else "")))
+        # an object that an earlier operation derived this one from must not change through this one (shared arrays / dictionaries)
+        if retained is not None:
+            try:
+                impl._vf_retained = retained
+            except Exception:
+                pass
+        prev = getattr(impl, "_vf_retained", None)
+        if prev is not None:
+            for x in self.check_state(prev[0], prev[1], f"{kind}-on-the-object-derived-by-{prev[2]}" if retained is None else prev[2]):
+                x["key"] = "alias|source-object-changed|" + x["key"]
+                x["what"] = "the data set this one was derived from changed: " + x["what"]
+                vs.append(x)
         return impl, ref, vs
 
     # -------------------------------------------------------------------------------------------
